@@ -24,8 +24,14 @@ THEOREMS = [
     "no_panic_header_from_record", "no_panic_record_payload",
     "reg_from_hex_unfixed_refuted", "decrypt_unfixed_refuted", "port_validate_unfixed_refuted",
     "increment_port_unfixed_refuted", "load_cache_unfixed_refuted",
+    "no_panic_expiry_test", "expiry_by_addition_refuted", "str_slice_prefix_refuted",
 ]
-RULE = ("per parser: empty / one-short / exact / one-long / far-too-long decoded lengths around every fixed "
+RULE = ("per text parser: non-ASCII inputs whose BYTE length is exactly L for L around every special length (hex "
+        "lengths 64/66/96/98/160/162, short port / amount / multiaddress lengths) with a 2-, 3- or 4-byte character "
+        "starting at byte offsets 0..4 and ending at the end; 0x/0X prefixes, blanks, quotes, signs around valid values; "
+        "cache files with last_seen at 0, 1, 2^31, 2^32, 2^62, i64::MAX-{0,1,59..86401,10^9}, u64 values and nanos "
+        "serde rejects, and within 1-3 s of now / the expiry boundary; "
+        "per parser: empty / one-short / exact / one-long / far-too-long decoded lengths around every fixed "
         "offset (8, 20, 32, 48, 80 bytes; 3 header bytes), odd length, upper/mixed case, one non-hex or "
         "non-ASCII character, valid values from the real formatter; ports: every shape of `a`, `a-b` with "
         "0/1/65534/65535/65536 neighbours, signs, blanks, empty pieces, extra pieces, counts around "
@@ -89,6 +95,35 @@ def hex_inputs(rng, lens, valid=()):
         out += [v.upper(), v[:-2], v + "00", v[:-1], "0" + v, v[2:]]
         i = rng.randrange(len(v))
         out.append(v[:i] + ("0" if v[i] != "0" else "1") + v[i + 1:])
+    return out
+
+
+MULTIBYTE = ["\u00e9", "\u20ac", "\U0001f600"]      # 2-, 3- and 4-byte UTF-8 characters
+
+
+def utf8_probes(special, filler="0", deltas=(-2, 0, 2), offsets=(0, 1, 2, 3, 4)):
+    """texts whose BYTE length is exactly L (for L around every length a parser may treat specially) with one
+    multi-byte character starting at every small byte offset, and one ending right at the end: what `&s[a..b]`
+    on a str needs to hit a non-boundary"""
+    out = []
+    for L in sorted({sp + d for sp in special for d in deltas if sp + d > 0}):
+        for ch in MULTIBYTE:
+            w = len(ch.encode("utf-8"))
+            for k in offsets:
+                if k + w <= L:
+                    out.append(filler * k + ch + filler * (L - k - w))
+            if L - w > 4:
+                out.append(filler * (L - w) + ch)                     # straddles the end
+                out.append(filler * (L - w - 1) + ch + filler)
+    return out
+
+
+def tolerance_probes(values):
+    """well-meant tolerance paths: radix prefixes and surrounding blanks around otherwise valid texts"""
+    out = []
+    for v in values:
+        out += ["0x" + v, "0X" + v, "0x" + v[2:], "0X" + v[2:], " " + v, v + " ", " " + v + " ", "\t" + v, v + "\n", v + "\r\n",
+                "\u00a0" + v, v + "\u3000", "+" + v, "#" + v, '"' + v + '"']
     return out
 
 
@@ -200,7 +235,7 @@ def good_addr(rng, pid):
     return base + "/tcp/%d/p2p/%s" % (port, pid[0]), [["ip4", ipn], ["tcp", port], ["p2p", pid[1].hex()]]
 
 
-def cache_case(rng, deep=False, f22=False):
+def cache_case(rng, deep=False, f22=False, extreme=False):
     """a structured cache file: JSON text with @S<offset>@ time placeholders + the data the text denotes"""
     expiry = rng.choice([60, 3600, 86400, 86400, 10 ** 9])
     max_peers = rng.choice([0, 1, 2, 3, 5, 1500])
@@ -209,13 +244,17 @@ def cache_case(rng, deep=False, f22=False):
     counters = [0, 0, 1, 1, 2, 3, 5, 2 ** 31 - 1, 2 ** 31, U32 - 2, U32 - 1] if f22 or rng.random() < 0.25 else [0, 1, 1, 2, 3, 5, 100]
 
     def offset():
+        # the harness samples now_secs just before the call, so the call's clock is in [now_secs, now_secs + 1s + run time):
+        # -1 and -(expiry+1) are decided whatever the delay; +3 and -(expiry-3) leave 2 s of slack
         r = rng.random()
         if r < 0.12:
-            return rng.choice([5, 6, 3600, 10 ** 6])                       # in the future
+            return rng.choice([3, 5, 6, 3600, 10 ** 6])                    # in the future
         if r < 0.35:
-            return -(expiry + rng.choice([5, 6, 60, 10 ** 5]))               # expired
-        lo = min(expiry - 5, 10 ** 6)
-        return -rng.choice([5, 6, 7, max(5, lo), max(5, lo - 1), max(5, rng.randrange(5, max(6, lo + 1)))])
+            return -(expiry + rng.choice([1, 2, 5, 6, 60, 10 ** 5]))         # expired
+        lo = min(expiry - 3, 10 ** 6)
+        return -rng.choice([1, 2, 5, 6, 7, max(1, lo), max(1, lo - 1), max(1, rng.randrange(1, max(2, lo + 1)))])
+    I64 = 2 ** 63 - 1
+    absolute = [0, 1, 2 ** 31, 2 ** 32, 2 ** 62] + [I64 - k for k in (0, 1, 59, 60, 61, 3599, 3600, 86399, 86400, 86401, 10 ** 9)]
     peers, data = {}, []
     seen_pool = [offset() for _ in range(3)]
     for _ in range(npeers):
@@ -235,6 +274,14 @@ def cache_case(rng, deep=False, f22=False):
                 s, f = f, s
             off = rng.choice(seen_pool) if rng.random() < 0.3 else offset()  # ties between peers
             nanos = rng.choice([0, 0, 1000000, 999000000, 1000000 * rng.randrange(1000)])   # distinct times differ by >= 1 ms
+            if extreme and rng.random() < 0.4:
+                # absolute times at the ends of what SystemTime / serde can hold (far from now and from the expiry boundary)
+                a = rng.choice(absolute)
+                nanos = rng.choice([0, 999000000, 999999999])
+                lst.append({"addr": t, "success_count": s, "failure_count": f,
+                            "last_seen": {"secs_since_epoch": a, "nanos_since_epoch": nanos}})
+                dl.append({"protos": pr, "s": s, "f": f, "abs": a, "nanos": nanos})
+                continue
             lst.append({"addr": t, "success_count": s, "failure_count": f,
                         "last_seen": {"secs_since_epoch": "@S%d@" % off, "nanos_since_epoch": nanos}})
             dl.append({"protos": pr, "s": s, "f": f, "off": off, "nanos": nanos})
@@ -245,6 +292,23 @@ def cache_case(rng, deep=False, f22=False):
     text = re.sub(r'"(@S-?\d+@)"', r"\1", text)
     return {"op": "load_cache", "text": text, "data": data, "max_peers": max_peers, "max_addrs": max_addrs,
             "expiry_secs": expiry, "fam": "structured"}
+
+
+def extreme_time_case(rng):
+    """a well-formed cache file whose last_seen fields hold values at and beyond what serde / SystemTime accept, or
+    within a second of `now` / the expiry boundary (result depends on the clock: judged by the oracle only)"""
+    c = cache_case(rng)
+    exp = c["expiry_secs"]
+    secs = ["@S0@", "@S1@", "@S2@", "@S-%d@" % exp, "@S-%d@" % (exp - 1), "@S-%d@" % (exp - 2), "0", "1", str(2 ** 31), str(2 ** 32),
+            str(2 ** 62), str(2 ** 63 - 1), str(2 ** 63 - 1 - exp), str(2 ** 63 - exp), str(2 ** 63), str(2 ** 64 - 1), str(2 ** 64),
+            "-1", "1e18", "9223372036854775807.0"]
+    nanos = ["0", "999999999", "1000000000", "4294967295", "4294967296", "-1", "1999999999"]
+    text = re.sub(r'"secs_since_epoch": (@S-?\d+@|\d+), "nanos_since_epoch": \d+',
+                  lambda m: '"secs_since_epoch": %s, "nanos_since_epoch": %s' % (
+                      (rng.choice(secs), rng.choice(nanos)) if rng.random() < 0.5 else (m.group(1), "0")), c["text"])
+    c.pop("data")
+    c["text"], c["fam"] = text, "extreme"
+    return c
 
 
 def mutate_text(rng, text):
@@ -294,13 +358,17 @@ def gen(ctx, valid_pks):
     cases = []
     # ---- hex addresses
     reg_valid = [bytes(rng.getrandbits(8) for _ in range(32)).hex() + pk for pk in valid_pks[:4]]
-    for s in hex_inputs(rng, [0, 1, 8, 31, 32, 33, 47, 48, 49, 79, 80, 80, 81, 96, 160, 1000], reg_valid):
+    x32 = bytes(rng.getrandbits(8) for _ in range(32)).hex()
+    for s in hex_inputs(rng, [0, 1, 8, 31, 32, 33, 47, 48, 49, 79, 80, 80, 81, 96, 160, 1000], reg_valid) + \
+            utf8_probes([64, 66, 96, 160, 162]) + tolerance_probes(reg_valid[:1]):
         cases.append(dict(S(s), op="reg_from_hex"))
-    for s in hex_inputs(rng, [0, 1, 47, 48, 48, 49, 80, 96], valid_pks[:4]):
+    for s in hex_inputs(rng, [0, 1, 47, 48, 48, 49, 80, 96], valid_pks[:4]) + \
+            utf8_probes([64, 96, 98, 160]) + tolerance_probes(valid_pks[:1]):
         cases.append(dict(S(s), op="scratch_from_hex"))
-    for s in hex_inputs(rng, [0, 1, 31, 32, 32, 33, 48, 64], []):
+    for s in hex_inputs(rng, [0, 1, 31, 32, 32, 33, 48, 64], []) + \
+            utf8_probes([4, 64, 66, 96, 160]) + tolerance_probes([x32]):
         cases.append(dict(S(s), op="str_to_addr"))
-    for s in hex_inputs(rng, [0, 1, 2, 3, 32, 100, 5000], []):
+    for s in hex_inputs(rng, [0, 1, 2, 3, 32, 100, 5000], []) + utf8_probes([4, 64, 66]) + tolerance_probes([x32, "00"]):
         cases.append(dict(S(s), op="datamap_from_hex"))
     for i in range(12 * k):
         cases.append({"op": "reg_roundtrip", "seed": rng.getrandbits(40),
@@ -316,6 +384,8 @@ def gen(ctx, valid_pks):
         if len(b) % 2 == 0 and len(b) >= 40 and re.fullmatch(rb"[0-9a-fA-F]*", b):
             continue
         cases.append(dict(S(s), op="decrypt", pw=pw, fam="cheap"))
+    for s in utf8_probes([16, 24, 40, 42, 72]) + tolerance_probes(["00" * 19, "00" * 36]):     # none of these is valid hex: no KDF
+        cases.append(dict(S(s), op="decrypt", pw=pw, fam="cheap"))
     for n in [20, 20, 21, 35, 36, 37, 100][: (4 if quick else 7)]:
         cases.append(dict(S(bytes(rng.getrandbits(8) for _ in range(n)).hex()), op="decrypt", pw=pw, fam="garbage"))
     pts = [b"", b"a", bytes.fromhex("ac0974bec39a17e36ba4a6b4d238ff944bacb478cbed5efcae784d7bf4f2ff80").hex().encode(),
@@ -327,7 +397,8 @@ def gen(ctx, valid_pks):
     for key in ["", "0xabc", "kéy"][: (2 if quick else 3)]:
         cases.append({"op": "encrypt_roundtrip", "key": list(key.encode()), "pw": pw})
     # ---- ports
-    for s in port_strings(rng, 220 * k):
+    for s in port_strings(rng, 220 * k) + utf8_probes([3, 5, 8, 11], filler="1", deltas=(0,)) + \
+            utf8_probes([5, 11], filler="-", deltas=(0,), offsets=(0, 1, 2)) + tolerance_probes(["80", "12000-12005", "0-65535"]):
         cases.append(dict(S(s), op="port_parse"))
         m = re.fullmatch(r"\+?(\d+)-\+?(\d+)", s)
         cnts = {0, 1, 2, 65535}
@@ -345,14 +416,20 @@ def gen(ctx, valid_pks):
     for p in [None, 0, 1, 2, 1023, 32767, 32768, 65533, 65534, 65535] + [rng.randrange(U16) for _ in range(10 * k)]:
         cases.append({"op": "incr_port", "p": p})
     # ---- amounts
-    for s in amount_strings(rng, 80 * k):
+    for s in amount_strings(rng, 80 * k) + utf8_probes([3, 6, 20, 40, 78], filler="1", deltas=(0,)) + \
+            utf8_probes([6, 22], filler=".", deltas=(0,), offsets=(0, 1, 2)) + tolerance_probes(["1.5", "16", "0.000000000000000001"]):
         cases.append(dict(S(s), op="amount_from_str"))
     # ---- multiaddresses
-    for s in multiaddr_strings(rng, 200 * k):
+    pidx = peer_id(rng)[0]
+    for s in multiaddr_strings(rng, 200 * k) + utf8_probes([5, 12, 30], filler="/", deltas=(0,)) + \
+            utf8_probes([16, 64], filler="a", deltas=(0,)) + \
+            tolerance_probes(["/ip4/1.2.3.4/udp/5/quic-v1/p2p/" + pidx, "/ip4/1.2.3.4/tcp/80"]):
         cases.append(dict(S(s), op="craft_from_str", ignore=rng.random() < 0.3))
     # ---- cache files
-    for i in range(50 * k):
-        cases.append(cache_case(rng, deep=(i % 10 == 9), f22=(i % 5 == 0)))
+    for i in range(60 * k):
+        cases.append(cache_case(rng, deep=(i % 10 == 9), f22=(i % 5 == 0), extreme=(i % 3 == 1)))
+    for i in range(40 * k):
+        cases.append(extreme_time_case(rng))
     seeds = [cache_case(rng) for _ in range(8)]
     for i in range(70 * k):
         c = dict(rng.choice(seeds))
@@ -442,7 +519,7 @@ def ref_craft(protos, ignore):
     return out
 
 
-GRAMMAR = re.compile(r"^([0-9]+)(?:\.([0-9]*))?$", re.A)
+GRAMMAR = re.compile(r"([0-9]+)(?:\.([0-9]*))?", re.A)      # used with fullmatch ($ would accept a trailing newline)
 
 
 def oracle(c, o):
@@ -520,7 +597,7 @@ def oracle(c, o):
             bad("incr-wrap" if p == 65535 else "incr-value", "increment_port_option(%s) = %s" % (p, o["r"]))
     elif op == "amount_from_str":
         s = text_of(c)
-        m = GRAMMAR.match(s)
+        m = GRAMMAR.fullmatch(s)
         want = None
         if m:
             f = (m.group(2) or "").rstrip("0")
@@ -601,7 +678,8 @@ def ccache(peers, now_secs, key_off, key_nanos):
     out = []
     for p in peers:
         recs = ["{| a_addr := %s; a_s := %s; a_f := %s; a_seen := %s |}" % (
-            caddr(a["protos"]), cN(a["s"]), cN(a["f"]), cN((now_secs + a[key_off]) * 10 ** 9 + a[key_nanos]))
+            caddr(a["protos"]), cN(a["s"]), cN(a["f"]),
+            cN((a["abs"] if "abs" in a else now_secs + a[key_off]) * 10 ** 9 + a[key_nanos]))
             for a in p["addrs"]]
         out.append("(%s, %s)" % (cstr(p["peer"]), clist(recs)))
     return clist(out)
